@@ -1131,10 +1131,16 @@ class PyExec:
         if isinstance(base, Arr):
             st.effects.append(("arr-load", base, idx))
             if isinstance(idx, tuple) and any(isinstance(i, tuple) and i and i[0] == "slice" for i in idx) or (isinstance(idx, tuple) and idx and idx[0] == "slice"):
-                return [("val", Arr(base.dtype, base.shape[-1:], data=uid("slice"), base=base), st)]
+                sl = Arr(base.dtype, base.shape[-1:], data=uid("slice"), base=base)
+                sl.origin_idx = idx
+                return [("val", sl, st)]
             n = len(idx) if isinstance(idx, tuple) else 1
             if n == len(base.shape):
-                nm = uid("elem_" + base.data)
+                cidx = [self.concrete(i) if isinstance(i, (Sym, Const)) else None for i in (idx if isinstance(idx, tuple) else (idx,))]
+                if all(c is not None for c in cidx):
+                    nm = "elem_%s[%s]" % (base.data, ",".join(map(str, cidx)))  # same cell, same term
+                else:
+                    nm = uid("elem_" + base.data)
                 t = z3.Real(nm) if base.dtype.startswith("float") else z3.Int(nm)
                 if base.dtype in DT:
                     w, sg = DT[base.dtype]
@@ -1280,7 +1286,10 @@ class PyExec:
     def np_scalar(self, dtype, v, st):
         if dtype.startswith("float"):
             t, isr = self.num(v)
-            return [("val", Sym(t if isr else z3.ToReal(t), "float"), st)]
+            t = t if isr else z3.ToReal(t)
+            if dtype == "float32":
+                t = z3.Function("FLOAT32", z3.RealSort(), z3.RealSort())(t)  # rounding to 24 bits: not the identity
+            return [("val", Sym(t, "float"), st)]
         w, sg = DT[dtype]
         lo, hi = (-(1 << (w - 1)), (1 << (w - 1)) - 1) if sg else (0, (1 << w) - 1)
         t, isr = self.num(v)
@@ -1432,9 +1441,15 @@ class PyExec:
         if name == "str":
             return [("val", Const("<str>"), st)]
         if name == "bytes":
-            t = z3.Int(uid("bytes"))
+            src = args[0]
+            oi = getattr(src, "origin_idx", None)
+            lead = [self.concrete(i) for i in oi[:-1]] if isinstance(oi, tuple) and len(oi) >= 2 and all(isinstance(i, (Sym, Const)) for i in oi[:-1]) else None
+            if lead is not None and all(c is not None for c in lead) and isinstance(src, Arr) and src.base is not None:
+                t = z3.Int("cellkey_%s[%s]" % (src.base.data, ",".join(map(str, lead))))  # identity stored in that cell
+            else:
+                t = z3.Int(uid("bytes"))
             v = Sym(t, "bytes")
-            v.origin = ("bytes", args[0])
+            v.origin = ("bytes", src)
             return [("val", v, st)]
         if name == "type":
             return [("val", Const("<type>"), st)]
